@@ -240,11 +240,17 @@ class Gen:
             return s + 'esac'
         body = self.compound(depth) if self.r.random() < 0.3 else '{' + self.sp() + self.clist(d, needterm=True) + '}'
         y = self.r.random()
-        fn = self.r.choice(['f', 'g', 'fn_1'])
+        fn = self.r.choice(['f', 'g', 'fn_1', 'a', 'b', 'c', 'foo'])
         if y < 0.4: return fn + self.osp() + '()' + self.r.choice([' ', '\n', '']) + body
         if y < 0.7: return 'function' + self.sp() + fn + self.r.choice([' ', '\n']) + body
         return 'function' + self.sp() + fn + self.osp() + '()' + self.r.choice([' ', '\n']) + body
     def unsupported_cmd(self, depth):
+        if self.r.random() < 0.4:
+            # an unsupported construct around generated pieces, with trailing redirections
+            body = self.r.choice(['{ ' + self.simple(depth, bare=True) + '; }', '(' + self.simple(depth, bare=True) + ')', 'while a; do ' + self.simple(depth, bare=True) + '; done'])
+            red = ''.join(' ' + self.redirect(depth, allow_heredoc=False) for _ in range(self.r.choice([0, 1, 1, 2])))
+            return self.r.choice(['coproc ' + body + red, 'coproc ' + self.name() + ' ' + body + red, 'select ' + self.name() + ' in ' + self.word(depth) + '; do ' + self.simple(depth, bare=True) + '; done' + red,
+                                  'time ' + body + red, 'time -p ' + self.simple(depth, bare=True)])
         return self.r.choice(['select x in a b; do c; done', 'coproc a', 'coproc { a; }', '(( 1 + 2 ))', 'for (( i=0; i<3; i++ )); do a; done',
                               '[[ a = b ]]', 'time a', 'time -p a | b', 'a $((1+2))', 'a $[1+2]', 'time'])
     def command(self, depth):
